@@ -15,7 +15,7 @@ From Coq Require Import ZArith List Bool.
 From Low Require Import Lib.BitSeq Lib.Bytes Model.Pbcmpl Model.LegacyPbcmpl Spec.PbcmplSpec
   Proofs.PbcmplIO Proofs.PbcmplHeader Proofs.PbcmplProofs Proofs.PbcmplMarshal
   Proofs.PbcmplFrames Proofs.PbcmplStream Proofs.PbcmplHistory Proofs.PbcmplLegacy.
-From Low Require Import Lib.Val Run.PbcmplOps.
+From Low Require Import Lib.Val Run.PbcmplOps Model.PbcmplWalk Spec.PbcmplWalkSpec Proofs.PbcmplWalk.
 Import ListNotations.
 Open Scope Z_scope.
 
@@ -228,6 +228,37 @@ Theorem C07_op_marshal : forall kind script m,
   v_marshal_model kind script m = v_marshal_spec kind script m.
 Proof. exact v_marshal_model_spec. Qed.
 Print Assumptions C07_op_marshal.
+
+(** widening — ReadHeader combined with io.ReadFull by a user program (Model/PbcmplWalk.v)
+    on ARBITRARY bytes, any chunking, any terminal condition: it returns (never
+    panics) exactly the steps of the flat specification — short header, refusal of a
+    header size <> 32 / a negative or > 64 KiB body size, truncated body with the
+    error io.ReadFull owes (io.EOF when no body byte was there, io.ErrUnexpectedEOF,
+    or the injected error), complete body — and leaves exactly the bytes it says *)
+Theorem C07_walk_exact : forall cs t,
+  chunks_ok cs -> bytes_ok (concat cs) -> zlen (concat cs) < 2 ^ 63 ->
+  exists steps cs',
+    c_Walk (cs, t) = Some (steps, (cs', t))
+    /\ chunks_ok cs'
+    /\ spec_Walk (concat cs) t = (steps, concat cs').
+Proof. exact c_Walk_spec. Qed.
+Print Assumptions C07_walk_exact.
+
+Example C07_walk_nonvacuous :
+  let eof := {| t_err := EEOF; t_with_last := false |} in
+  let inj := {| t_err := EInjected; t_with_last := true |} in
+  let fr := frame [49; 46; 50; 46; 51] [7; 8; 9] in
+  c_Walk (chunks_of [5] (fr ++ firstn 34 fr), inj)
+    = Some ([(32, None, [49; 46; 50; 46; 51], 32, 3, [7; 8; 9], false);
+             (32, Some EInjected, [49; 46; 50; 46; 51], 32, 3, [7; 8], false)], ([], inj))
+  /\ c_Walk (chunks_of [5] (firstn 32 fr), eof)
+    = Some ([(32, Some EEOF, [49; 46; 50; 46; 51], 32, 3, [], false)], ([], eof))
+  /\ c_Walk (chunks_of [] (pad16 [97] ++ le64 32 ++ le64 (2 ^ 63) ++ [9; 9]), eof)
+    = Some ([(32, None, [97], 32, - 2 ^ 63, [], true)], ([[9; 9]], eof))
+  /\ spec_Walk (fr ++ firstn 34 fr) inj
+    = ([(32, None, [49; 46; 50; 46; 51], 32, 3, [7; 8; 9], false);
+        (32, Some EInjected, [49; 46; 50; 46; 51], 32, 3, [7; 8], false)], []).
+Proof. vm_compute. repeat split; reflexivity. Qed.
 
 (** the defect repaired by /repo commit 815cf27: against the pre-fix Unmarshal
     (Model/LegacyPbcmpl.v: make([]byte, int64(BodySize)) then io.ReadFull) the "never
